@@ -4,7 +4,7 @@
    patches, and the reference Outcome for each configuration of interest.
    Every scenario is emitted for materialisation as a real workspace. *)
 EXTENDS Outcome, Json, TLC
-CONSTANTS Trees, P1Two, NPatches, Cfgs, EmitCases
+CONSTANTS Trees, P1Two, NPatches, Cfgs, EmitCases, WithReverse
 VARIABLES tree0, series, ph
 
 M(p, hs) == [kind |-> "M", old |-> p, new |-> p, ren |-> FALSE, hunks |-> hs, to |-> <<>>, from |-> <<>>, nmode |-> NoMode]
@@ -33,6 +33,7 @@ TreesAll == {TreeOf(a, b, c, e) : a \in {Absent, F(<<0>>, "644"), F(<<0, 0>>, "7
                                   b \in {Absent, F(<<>>, "644"), F(<<0>>, "644")},
                                   c \in {Absent, F(<<0>>, "644"), F(<<1>>, "644")}, e \in {Absent, F(<<1>>, "644")}}
 
+Revs == IF WithReverse THEN BOOLEAN ELSE {FALSE}
 One == {<<x>> : x \in FPU}
 Two == {<<x, y>> : x \in FPU, y \in FPU}
 
@@ -47,9 +48,9 @@ Cfgs_one     == {C("onfail", 100, FALSE)}
 Init == tree0 = TreeOf(Absent, Absent, Absent, Absent) /\ series = <<>> /\ ph = 0
 Next == \/ /\ ph = 0 /\ ph' = 1 /\ UNCHANGED series /\ \E t \in Trees : tree0' = t
         \/ /\ ph = 1 /\ ph' = 2 /\ UNCHANGED tree0
-           /\ \E p \in (IF P1Two THEN One \cup Two ELSE One) : series' = <<[fps |-> p]>>
+           /\ \E p \in (IF P1Two THEN One \cup Two ELSE One) : \E r \in Revs : series' = <<[fps |-> p, rev |-> r]>>
         \/ /\ ph >= 2 /\ ph <= NPatches /\ ph' = ph + 1 /\ UNCHANGED tree0
-           /\ \E p \in One : series' = Append(series, [fps |-> p])
+           /\ \E p \in One : \E r \in Revs : series' = Append(series, [fps |-> p, rev |-> r])
 
 CfgList == LET RECURSIVE ToSeq(_)
                ToSeq(S) == IF S = {} THEN <<>> ELSE LET x == CHOOSE x \in S : TRUE IN <<x>> \o ToSeq(S \ {x})
